@@ -1,7 +1,9 @@
 /-
 C15 — RFC 8285 header-extension access, mirroring `RtpHeader::{get_extension,set_extension}`
-(`src/rtp.rs`).  `set_extension` is modelled with its panic outcome: copying an element whose
-declared length overruns the block slices out of range in the code.
+(`src/rtp.rs`).  `set_extension` keeps a three-outcome result type; since the fix "set_extension
+rejects a malformed one-byte extension block instead of panicking" an element whose declared length
+overruns the block is an `InvalidHeader` error with the header left unchanged (it used to slice out of
+range), so the `panic` outcome is unreachable — `set_extension_total` in `Theorems/C15.lean`.
 -/
 import RtcModel.C15Rtp
 
@@ -44,8 +46,9 @@ def getExtension (h : Header) (id : UInt8) : Option Bytes :=
     else if e.profile.toNat = c15TwoByteProfile then getTwo id.toNat e.data
     else none
 
-/-- the rebuild loop of `set_extension`: `none` = panic (slice end out of range), otherwise the
-rebuilt bytes and whether the id was found. -/
+/-- the rebuild loop of `set_extension`: `none` = a non-target element overruns the block
+(`InvalidHeader("malformed header extension block")`), otherwise the rebuilt bytes and whether the id
+was found. -/
 def rebuild (id : Nat) (newElem : Bytes) : Bytes → Option (Bytes × Bool)
   | [] => some ([], false)
   | b :: rest =>
@@ -85,7 +88,7 @@ def setExtension (h : Header) (id : UInt8) (data : Bytes) : SetRes :=
     if ext.profile.toNat ≠ c15OneByteProfile then .err "unsupported extension profile for modification"
     else
       match rebuild id.toNat (oneByteElem id data) ext.data with
-      | none => .panic
+      | none => .err "malformed header extension block"
       | some (out, found) =>
         let nd := if found then out else out ++ oneByteElem id data
         .ok { h with ext := some ⟨ext.profile, nd ++ List.replicate (pad4 nd.length) 0⟩ }
